@@ -20,8 +20,8 @@ INFO = dict(
               'instant with FailedFastError; reconnect attempts are spaced by non-decreasing delays never above the configured maximum (60 s); '
               'a request issued at least one maximum retry interval after the endpoint became reachable is served by it; no connect attempt '
               'happens after the client was closed.',
-  bounds={'quick': 'one endpoint, back-off constants = builder defaults (5 s, x^1.2, max 60 s), unreachable for up to 40 s starting in [0, 20] s, 2 probe requests',
-          'thorough': 'unreachable for up to 100 s; 3 probe requests'},
+  bounds={'quick': 'one endpoint, back-off constants = builder defaults (5 s, x^1.2, max 60 s), unreachable for up to 40 s starting in [0, 20] s, 2 probe requests; client closed at a symbolic instant while down, also while a (slow) connect attempt is in flight',
+          'thorough': 'as quick with outages of up to 100 s'},
   outside=['symbolic back-off parameters (exponentiation is out of reach of SMT; the defaults are concrete)', 'several endpoints failing independently',
            'flapping (more than one unreachable interval)'],
   stubs=['as C01; connect outcome is a function of the virtual time of the attempt'],
